@@ -435,6 +435,8 @@ def replay(rec):
     drv = CtxDriver(9)
     hist = tuple(ev_key(e) for e in case["history"])
     s, outs = explore.run_history(drv, hist)
+    if hist:
+        drv.outcome_oracle(acc, s, hist, outs)  # the checks of the last event's own outcome
     drv.oracle(acc, s, hist, outs)
     sites = {tuple(v["site"]) for v in acc.violations}
     return tuple(site) in sites, {"sites_seen": sorted(sites)[:20], "outcomes": outs}
